@@ -12,7 +12,7 @@ import (
 func init() {
 	register(&Spec{ID: "C03", Title: "Each response is delimited by exactly one final DONE and fully drained", Run: runC03,
 		Meta: core.Meta{
-			Explanation: "Structural necessary conditions of response delimiting, decided on SSA. R03.1: every test of 'final DONE' in package tds (outside Login, which is C08's) is an exact comparison of DonePackage.Status with TDS_DONE_FINAL; a mask test against the zero-valued constant is recognised as constant-false; isDoneFinal answers true only for an asserted *DonePackage whose Status equals TDS_DONE_FINAL. R03.2: the synthetic DONE(FINAL) in tryParsePackage is sent only when the token read failed, the queue is at EOM and the last delivered package is not a DONE with Status == FINAL (path condition), the function then returns false, and WritePacket resets the rx queue on the EOM edge of a failed attempt; every delivery `packageCh <- pkg` is followed on all paths by lastPkgRx = pkg. R03.3: in NextPackageUntil every path from a callback error to a return either compares the error for identity with io.EOF (the documented multi-result-set shortcut; errors.Is would also swallow wrapped EOFs), or has isDoneFinal(pkg) true, or passes the draining recursive call NextPackageUntil(ctx, wait, nil); in nil-callback mode every return is dominated by isDoneFinal being true or follows the recursive call whose callback is isDoneFinal. R03.4: Reset restores the tx side (header type, tx queue, lastPkgTx) and SendRemainingPackets runs it on every exit after the closed check.",
+			Explanation: "Structural necessary conditions of response delimiting, decided on SSA. R03.1: every test of 'final DONE' in package tds (outside Login, which is C08's) is an exact comparison of DonePackage.Status with TDS_DONE_FINAL; a mask test against the zero-valued constant is recognised as constant-false; isDoneFinal answers true only for an asserted *DonePackage whose Status equals TDS_DONE_FINAL. R03.2: the synthetic DONE(FINAL) in tryParsePackage is sent only when the token read failed, the queue is at EOM and the last delivered package is not a DONE with Status == FINAL (path condition), the function then returns false, and WritePacket resets the rx queue on the EOM edge of a failed attempt; every delivery `packageCh <- pkg` is followed on all paths by lastPkgRx = pkg. R03.3: in NextPackageUntil every path from a callback error to a return either compares the error for identity with io.EOF (the documented multi-result-set shortcut; errors.Is would also swallow wrapped EOFs), or has isDoneFinal(pkg) true, or passes the draining recursive call NextPackageUntil(ctx, wait, nil); in nil-callback mode every return is dominated by isDoneFinal being true or follows the recursive call whose callback is isDoneFinal. R03.5 = R02.4 (AddPacket sets recvEOM exactly under Status&TDS_BUFSTAT_EOM == TDS_BUFSTAT_EOM, a mask test: the EOM packet of a response may carry further status bits). R03.6: every error return of NextPackage other than the closed-channel one is dominated by the non-blocking receive from packageCh, so a drain running under an ended context still empties what was received. R03.4: Reset restores the tx side (header type, tx queue, lastPkgTx) and SendRemainingPackets runs it on every exit after the closed check.",
 			NotDecided:  "That the first package after the next request belongs to the next response depends on the history of lastPkgRx and is not decided; EED interleavings and packetisations are not explored.",
 			Assumptions: []string{"the reader goroutine is the only caller of tryParsePackage (checked: one call site)"},
 		}})
@@ -24,6 +24,10 @@ func runC03(r *core.Run) {
 	r.Rule("R03.2", "synthetic DONE(FINAL) only at EOM after a non-final last package; lastPkgRx tracks every delivery", 5, false)
 	r.Rule("R03.3", "NextPackageUntil drains the response on callback errors and in nil-callback mode", 2, false)
 	r.Rule("R03.4", "tx side is reset after every message", 2, false)
+	r.Rule("R03.5", "end of message is recognised from the EOM bit, whatever other status bits the packet carries (R02.4)", 2, false)
+	r.Rule("R03.6", "an already queued package is handed out before any context is consulted (the drain relies on it)", 1, false)
+	defer c02AddPacket(r, "R03.5")
+	defer c03QueuedFirst(r)
 
 	fDoneStatus := p.Field("tds", "DonePackage", "Status")
 	cFinal := constOf(p, "tds", "TDS_DONE_FINAL")
@@ -544,4 +548,38 @@ func c03Reset(r *core.Run, rule string) {
 		deferred = all && len(callsTo(srp, sp)) > 0
 	}
 	r.Check(deferred, rule, "SendRemainingPackets resets on every exit", srp.Pos(), "the tx state is restored on every exit after the flush", "after flushing a message the channel is not reset on every exit")
+}
+
+// c03QueuedFirst: R03.6. NextPackageUntil drains the rest of a response with the context its caller passed, and the
+// usual reason for a callback to abort is that this very context ended. The drain still empties what has been
+// received because NextPackage looks at the package queue first: every error return of NextPackage other than the
+// closed-channel one is dominated by the non-blocking receive from packageCh.
+func c03QueuedFirst(r *core.Run) {
+	p := r.Prog
+	fn := p.Func("tds", "Channel", "NextPackage")
+	fClosed := p.Field("tds", "Channel", "closed")
+	fast, _ := nextPackageSelects(fn, p.Field("tds", "Channel", "packageCh"))
+	key := "NextPackage: queued package before context errors"
+	if fast == nil {
+		r.Bad("R03.6", key, fn.Pos(), "NextPackage has no non-blocking receive from packageCh")
+		return
+	}
+	why := ""
+	for _, ret := range core.Returns(fn) {
+		rv := core.RetVals(ret)
+		if core.IsNil(rv[len(rv)-1]) {
+			continue
+		}
+		closedEdge := false
+		for _, g := range core.GuardsAt(ret) {
+			if f, _ := core.FieldLoad(g.Cond); f == fClosed && g.Pol {
+				closedEdge = true
+			}
+		}
+		if closedEdge || fast.Block().Dominates(ret.Block()) {
+			continue
+		}
+		why = "NextPackage can fail with " + core.Expr(rv[len(rv)-1]) + " (" + p.Pos(ret.Pos()) + ") before it has looked at the package queue: a drain whose context has ended consumes nothing and the rest of the response is read as the start of the next one"
+	}
+	r.Check(why == "", "R03.6", key, fast.Pos(), "every error return (other than ErrChannelClosed) comes after the non-blocking receive", why)
 }
